@@ -330,11 +330,20 @@ def decode_cols(v):
 class Check(PropertyCheck):
     id = 'C04'
     props = ['C04.v']
-    static_targets = ['theories/Model/AsMatrix.vo', 'theories/Lemmas/AsMatrixL.vo']
+    static_targets = ['theories/Model/AsMatrix.vo', 'theories/Lemmas/AsMatrixL.vo', 'theories/Lemmas/AsMatrixExecL.vo']
     coq_header = A.COQ_HEADER + 'From Furax Require Import Model.Wf Model.AsMatrix.\n'
     shard = 60
     workers = 8
-    partial = None
+    partial = (
+        'linearity (denote_homogeneous / denote_additive / denote_linear) is proved for all expression trees; '
+        'apply_is_matvec and override_eq_generic are proved for all expression trees (identity, scalar, sums, block '
+        'row/diagonal/column over nested containers, ravel/reshape, lazy inverses, compositions) UNDER two premises that '
+        'are not proved here: LOOP (the transcribed fori_loop `as_matrix_generic` builds the matrix of the columns '
+        '`generic_columns`) and HON (C05: a well-formed operator returns values of its declared output size); both are '
+        'validated by the correspondence on every case (model loop = model columns = the three real dense forms). '
+        'Leaf-level overrides (n-d DiagonalOperator, Toeplitz, DiagonalInverse: C11/C09) and ravel/reshape enter as '
+        'leaf premises (HOV, HRESH); the second stage (discharging lin_facts for Exec.leafsem) was not done'
+    )
     trusted = [
         'leaf operators (dense einsum atoms, index, pack, move-axis, Toeplitz, n-d diagonals, user-defined operators, '
         'iterative inverses, generic lazy transposes) act in the executable model through dense matrices measured on the '
@@ -378,12 +387,12 @@ class Check(PropertyCheck):
         # 3. products (CompositionOperator has no override: generic through every operand's mv)
         ch = [c for c in chains(3, names, t) if len(c) in (2, 3)]
         rng.shuffle(ch)
-        for c in ch[: 30 if quick else 1500]:
+        for c in ch[: 30 if quick else 800]:
             out.append({'kind': 'product', 'e': {rng.choice(['chain', 'rchain', 'comp']): c}})
         # 4. sums
         same = [(a, b) for a in names for b in names if t[a] == t[b]]
         rng.shuffle(same)
-        for a, b in same[: 30 if quick else 1200]:
+        for a, b in same[: 30 if quick else 600]:
             c = rng.choice([n for n in names if t[n] == t[a]])
             e = rng.choice([{'add': [a, b]}, {'sum': [a, b, c]}, {'sub': [a, {'add': [b, c]}]}, {'sum': [a]}])
             out.append({'kind': 'sum', 'e': e})
@@ -392,7 +401,7 @@ class Check(PropertyCheck):
         for n in names:
             by_in.setdefault(t[n][0], []).append(n)
             by_out.setdefault(t[n][1], []).append(n)
-        nblock = 50 if quick else 1500
+        nblock = 50 if quick else 800
         for _ in range(nblock):
             kind = rng.choice(['row', 'bdiagop', 'col'])
             k = rng.choice([1, 2, 2, 3, 3])
@@ -409,7 +418,7 @@ class Check(PropertyCheck):
             fixed = [l for l in lays if l[0].startswith(('dict:', 'nest', 'stokes-in', 'mixed-dict')) and rng.random() < 0.06]
             lays = fixed + rng.sample(lays, 26)
         for tag, s in lays:
-            for c in self._layout_cases(rng, tag, s, 3 if quick else 5):
+            for c in self._layout_cases(rng, tag, s, 3 if quick else 4):
                 out.append(c)
         self.stats['operands'] = len(names)
         return out
@@ -513,7 +522,7 @@ class Check(PropertyCheck):
             'row/diagonal/column operators over the alphabet in list/tuple/dict(unsorted keys)/nested containers; the layout '
             'scope (all structures with 1-3 leaves of shapes (2,),(3,),(2,2),(1,3),() in 5-6 container forms, Stokes '
             'containers, mixed float16/float32) x identity/scalar/user atom in both directions/lazy transpose/block '
-            'operators of pytree-valued blocks/sums/products/ravel/diagonal/index [quick: sampled, thorough: all layouts x 5 '
+            'operators of pytree-valued blocks/sums/products/ravel/diagonal/index [quick: sampled, thorough: all layouts x 4 '
             'operator kinds]. Non-trivial: the class of the operator overrides as_matrix or the structure has several leaves.'
         )
 
